@@ -144,8 +144,15 @@ def run_case(case):
             out2 = res2[0]
             r.ev()
             r.count("perturbation_checks")
-            diff = out2 != out
-            own = bool(diff[pos])
+            # other outputs: equal up to vectorisation noise (a perturbation that moves an element across the tail
+            # bound changes the length of the compacted 'inside' tensor, and torch's SIMD kernels may round the same
+            # element differently by an ulp depending on its lane); identity features stay strictly bitwise (a copy)
+            diff = (out2 - out).abs() > 1e-13 * (1 + out.abs())
+            idcols = torch.zeros_like(diff)
+            idcols[:, I] = True
+            if not uncond:
+                diff = diff | (idcols & (out2 != out))
+            own = bool(out2[pos] != out[pos])
             diff[pos] = False
             if diff.any():
                 k = [int(v) for v in diff.nonzero()[0]]
@@ -175,7 +182,7 @@ def run_case(case):
                     idm = torch.zeros_like(o2, dtype=torch.bool)
                     idm[:, I] = True
                     idm[pos] = False
-                    if (o2[idm] != out[idm]).any():
+                    if (o2[idm] != out[idm]).any():  # identity outputs are copies: strictly bitwise
                         r.viol("identity_cross_talk", "%s perturbing an identity feature changes another identity output" % fam,
                                direction=direction, mask=mask, cfg=cfg)
                     if float(o2[pos]) != new:
